@@ -139,7 +139,10 @@ def one_history(ns, tid, seed, want_real_update=True):
         outcome, exc = "raised", f"{type(ex).__name__}: {str(ex)[:120]}"
     ev = dict(tid=tid, seq=seq, ev="SimCreate", seed=seed, flavour=flavour, outcome=outcome, exc=exc, date_kind=date_kind,
               expect_ok=expect_ok, recomputed=[],
-              hourly_input_changed=any(x[0] == "opt" and x[2] == "starts" for x in edits), n_values_to_recompute=0, all_ups_active=False, date_hour=0,
+              hourly_input_changed=any(x[0] == "opt" and x[2] == "starts" for x in edits),
+              timeline_shifted=any(x[0] == "link" and x[2] == "country"
+                                   and model[x[3]]["opt"]["tz"] != model[model[x[1]]["lnk"]["country"]]["opt"]["tz"] for x in edits),
+              n_values_to_recompute=0, all_ups_active=False, date_hour=0,
               **proj.state(live))
     seq += 1
     if sim is not None:
